@@ -98,11 +98,15 @@ def cyc_val(c):
     return c
 
 
-def corr_capture(orig, wb, ext, cycles):
-    """What the model needs to know about the object that is saved; None when the case is outside the model."""
+def corr_capture(orig, wb, ext, cycles, pre=None):
+    """What the model needs to know about the object that is saved; None when the case is outside the model.
+    pre = the node indices evaluated to build the object (default: every cell, in order)."""
     vals0, codes = {}, []
     for i, n in enumerate(wb.nodes):
         cell = orig.cell_map.get(n['addr'])
+        if cell is None and pre is not None:
+            codes.append([])         # not in the saved model: never read by the model either
+            continue
         if n['kind'] == 'input':
             if cell is None or cell.formula is not None:
                 return None          # '=notformula' written through openpyxl IS a formula: not the generated workbook
@@ -126,9 +130,14 @@ def corr_capture(orig, wb, ext, cycles):
     except Unencodable:
         return None
     keys = [n.get('row', n.get('r1', 0)) for n in wb.nodes]
-    pre = [[0, i] for i in wb.cells()]
+    pre = [[0, i] for i in (wb.cells() if pre is None else pre)]
     return dict(nodes=nodes, codes=codes, keys=keys, order=order, pre=pre, settings=settings, ext=ext, cycles=cycles,
                 wb=wb)
+
+
+def canon_j(v):
+    from harness.common import jsonable
+    return jsonable(v)
 
 
 def enc_ops(wb, ops):
@@ -274,10 +283,10 @@ def correspondence(ctx, batch):
     answers = ctx.model.batch(calls)
     for c, ans in zip(batch, answers):
         case, wb = c['case'], c['wb']
-        if not isinstance(ans, list) or len(ans) != 3:
+        if not isinstance(ans, list) or len(ans) != 4:
             ctx.divergence(case, 'n/a', ans, 'Extract/C03.v persist entry rejected the input')
             continue
-        mdoc, mtrace0, mloaded = ans
+        mdoc, mtrace0, mloaded, mdoc_again = ans
         kind = f"corr:{c['ext']}:{'cycles' if c['cycles'] else 'plain'}"
         ctx.count(('corr', c['k']), kind=kind)
         # ---- the saved document
@@ -287,7 +296,18 @@ def correspondence(ctx, batch):
         if mloaded[0] != 1:
             ctx.divergence(case, 'loads', mloaded, 'Persist.from_text succeeds where from_file succeeds')
             continue
-        _, mset, msnap0, mtrace1, mdoc2 = mloaded
+        _, mset, msnap0, mtrace1, mdoc2, mextra = mloaded
+        # ---- a second save of the same object / the extra_data of the loaded model (extra_data cases)
+        if c.get('doc_again') is not None:
+            if cmp_doc(ctx, case, 'second save of the same object', mdoc_again, c['doc_again'], wb):
+                ctx.count(('corr-again', c['k']), kind='corr-second-save:' + c['ext'])
+        if c.get('extra_keys') is not None:
+            mk = [''.join(chr(x) for x in k) for k in mextra]
+            if mk != c['extra_keys']:
+                ctx.divergence(dict(case, leg='extra_data'), c['extra_keys'], mk,
+                               'keys of extra_data of Persist.from_text = loaded ExcelCompiler.extra_data')
+            else:
+                ctx.count(('corr-extra', c['k']), kind='corr-extra_data:' + c['ext'])
         # ---- settings of the loaded model
         meta = c.get('meta')
         if meta is not None:
@@ -311,6 +331,14 @@ def correspondence(ctx, batch):
                 ctx.count(('corr-float', c['k']), kind='corr-skip:float-inexact', nontrivial=False)
             continue
         ctx.count(('corr-trace0', c['k']), kind='corr-history:original')
+        if c.get('snap_orig') is not None:
+            r = 'same'
+            for j, ((iv, isn), m) in enumerate(zip(c['snap_orig'], mtrace0)):
+                r = cmp_snap(ctx, dict(case, step=j), 'cache of the original along the history', m[1], isn)
+                if r != 'same':
+                    break
+            if r == 'same':
+                ctx.count(('corr-snap0', c['k']), kind='corr-snapshots:original')
         if c.get('got') is not None and not c.get('astral'):
             if cmp_trace(ctx, case, 'history on the loaded model (' + c['place'] + ')', mtrace1, c['got']) == 'same':
                 ctx.count(('corr-trace1', c['k']), kind='corr-history:loaded:' + c['place'])
@@ -319,6 +347,12 @@ def correspondence(ctx, batch):
             r = cmp_snap(ctx, dict(case, step='after load'), 'cache after from_file', msnap0, isnap0)
             for j, ((iv, isn), m) in enumerate(zip(itrace, mtrace1)):
                 if r != 'same':
+                    break
+                if iv is not None and val_rel(mval(m[0]), iv) != 'same':
+                    r = val_rel(mval(m[0]), iv)
+                    if r == 'diff':
+                        ctx.divergence(dict(case, step=j, leg='post-load history'), iv, mval(m[0]),
+                                       'value returned by the loaded model = value returned by the loaded ExcelCompiler')
                     break
                 r = cmp_snap(ctx, dict(case, step=j), 'cache along the post-load history', m[1], isn)
             if r == 'same':
@@ -507,7 +541,58 @@ def run(ctx):
         for f in os.listdir(ctx.work):
             if f.startswith(f'm{k}') or f.startswith(f'spec{k}') or f.startswith(f'out{k}'):
                 os.remove(os.path.join(ctx.work, f))
-    correspondence(ctx, batch)
+    # ---- correspondence only: models saved after evaluating a random SUBSET of the cells in a random ORDER (the
+    #      cell map's key order is then not the sorted order, and cells outside the saved model read as blank after
+    #      the load); the post-load history stays inside the saved cells
+    for k2 in range(ctx.n(45, 500)):
+        wb = wbgen.gen_workbook(rng, ncells=rng.randrange(5, 10), pool=wbgen.CLEAN_POOL)
+        for i in wb.inputs():
+            if rng.random() < 0.4:
+                wb.nodes[i]['value'] = rng.choice(CONTENT_POOL)
+        ext = ['yml', 'json', 'pkl'][k2 % 3]
+        cells = wb.cells()
+        rng.shuffle(cells)
+        subset = cells[:rng.randrange(1, len(cells) + 1)]
+        case = dict(call='persist-partial', workbook=[(x['addr'], x.get('value'), x.get('text')) for x in wb.nodes],
+                    args=[ext, 'plain', 'same'], evaluated=[wb.nodes[i]['addr'] for i in subset])
+        stem = os.path.join(ctx.work, f'p{k2}')
+        try:
+            comp = ExcelCompiler(excel=wb.to_openpyxl())
+            for i in subset:
+                comp.evaluate(wb.nodes[i]['addr'])
+            corr = corr_capture(comp, wb, ext, False, pre=subset)
+            if corr is None or _json_astral(dict(case, call='persist')):
+                ctx.count(('corr-skip', 'p', k2), kind='corr-skip:outside the model', nontrivial=False)
+                continue
+            comp.to_file(stem, file_types=(ext,))
+            corr.update(case=case, k=('p', k2), place='same', astral=False, meta=None, got=None)
+            if ext != 'pkl':
+                corr['doc'] = parse_doc(stem + '.' + ext, ext)
+            saved = [i for i in wb.cells() if wb.nodes[i]['addr'] in comp.cell_map]
+            saved_inputs = [i for i in saved if wb.nodes[i]['kind'] == 'input']
+            ops = []
+            for _ in range(rng.randrange(5, 9)):
+                if saved_inputs and rng.random() < 0.4:
+                    ops.append(['set', wb.nodes[rng.choice(saved_inputs)]['addr'], rng.choice(wbgen.CLEAN_POOL)])
+                else:
+                    ops.append(['eval', wb.nodes[rng.choice(saved)]['addr']])
+            loaded = ExcelCompiler.from_file(stem + '.' + ext)
+            snap0 = wbgen.snapshot(loaded, wb)
+            if ext != 'pkl':
+                loaded.to_file(stem + '_again', file_types=(ext,))
+                corr['doc2'] = parse_doc(stem + '_again.' + ext, ext)
+            corr['snap'] = (snap0, run_ops_snap(loaded, wb, ops))
+            corr['snap_orig'] = run_ops_snap(comp, wb, ops)
+            corr.update(ops=ops, want=jsonable([['ok', canon_j(v)] for v, _ in corr['snap_orig']]))
+            ctx.count(('partial', k2), kind=f'partial-model:{ext}', sample=case)
+            batch.append(corr)
+        except Exception as exc:      # noqa: BLE001
+            ctx.divergence(case, f'{type(exc).__name__}: {exc}'[:300], 'n/a',
+                           'a partially built model is saved, loaded and run without an exception')
+        finally:
+            for f in os.listdir(ctx.work):
+                if f.startswith(f'p{k2}.') or f.startswith(f'p{k2}_again'):
+                    os.remove(os.path.join(ctx.work, f))
     # ---- extra_data survives
     wb = wbgen.gen_workbook(rng, ncells=6, pool=wbgen.CLEAN_POOL)
     for ext in ('yml', 'json', 'pkl'):
@@ -523,4 +608,20 @@ def run(ctx):
         if json.loads(json.dumps(ed, default=list)) != {'note': 'x: y', 'n': 3, 'l': [1, 'a']}:
             ctx.violation(dict(call='persist', args=[ext, 'extra_data']), "extra_data does not survive the trip",
                           impl=str(ed), expected="{'note': 'x: y', 'n': 3, 'l': [1, 'a']}")
+        # ---- correspondence only: with a user dictionary the model predicts the key order of the first save, of a
+        #      second save of the same object (cell_map moves last: coq/Refuted/C03_resave_extra_data.v) and the keys
+        #      of the loaded extra_data (the user's keys + 'filename')
+        if ext != 'pkl':
+            corr = corr_capture(comp, wb, ext, False)
+            if corr is not None:
+                corr['settings'][3] = [1, [[[ord(ch) for ch in kk], enc_val(vv)]
+                                           for kk, vv in (('note', 'x: y'), ('n', 3), ('l', [1, 'a']))]]
+                corr.update(case=dict(call='persist', args=[ext, 'extra_data']), k=('extra', ext), place='same',
+                            astral=False, ops=[], want=[], got=[], meta=None,
+                            extra_keys=[str(kk) for kk in loaded.extra_data])
+                corr['doc'] = parse_doc(stem + '.' + ext, ext)
+                comp.to_file(stem, file_types=(ext,))
+                corr['doc_again'] = parse_doc(stem + '.' + ext, ext)
+                batch.append(corr)
+    correspondence(ctx, batch)
     shutil.rmtree(ctx.work, ignore_errors=True)
